@@ -227,12 +227,12 @@ def run(ctx, rep):
         rep.check(not (set(piq) & r), "R2", key(pl, None, "a fill-or-kill order never reaches the queue (line %d)" % n.lineno), pl, n.exprs[0],
                   "a fill-or-kill order that rests in the market can be filled later")
         rets = [cfgp.nodes[x] for x in r if cfgp.nodes[x].kind == "return"]
-        okc = True
-        for rt in rets:
-            pre = [x for x in cfgp.live_nodes() if x.kind == "stmt" and utext(x.ast) == "self.size_cancelled += self.size_remaining"
-                   and cfgp.dominates(x.id, rt.id) and x.id in r]
-            okc = okc and bool(pre)
-        rep.check(okc and len(rets) >= 3, "R2", key(pl, None, "every fill-or-kill exit cancels the unfilled part (line %d)" % n.lineno), pl, n.exprs[0])
+        cancels = [x.id for x in cfgp.live_nodes() if x.kind == "stmt" and utext(x.ast) == "self.size_cancelled += self.size_remaining"
+                   and x.id in r]
+        # every way out of the fill-or-kill branch passes the statement that cancels the remainder
+        okc = bool(rets) and bool(cancels) and all(cfgp.all_paths_pass(t, rt.id, cancels) for rt in rets) and \
+            cfgp.all_paths_pass(t, cfgp.exit, cancels + [rt.id for rt in rets])
+        rep.check(okc, "R2", key(pl, None, "every fill-or-kill exit cancels the unfilled part (line %d)" % n.lineno), pl, n.exprs[0])
     # the kill decision: limit through / at / behind the best price
     for side, best in (("BACK", "available_to_back"), ("LAY", "available_to_lay")):
         atoms = [utext(n.exprs[0]) for n in cfgp.live_nodes() if n.kind == "cond" and
